@@ -274,6 +274,46 @@ impl<F, R> CongressSample<F, R> {
     }
 }
 
+/// Verification hooks (only with `--cfg metrique_verif`): end the current interval without
+/// waiting for the clock, and read the per-group state.
+#[cfg(metrique_verif)]
+#[doc(hidden)]
+impl<F, R> CongressSample<F, R> {
+    /// Runs the private `update_rates` as if the interval had elapsed.
+    pub fn verif_end_interval(&mut self) {
+        self.update_rates();
+    }
+
+    /// Pushes the start of the next interval far into the future, so that only
+    /// `verif_end_interval` ends intervals.
+    pub fn verif_freeze_clock(&mut self) {
+        self.next_interval_start = Instant::now() + Duration::from_secs(86400 * 365);
+    }
+
+    /// `(group, sample_rate, average_observed, current_observed)` for every retained group.
+    pub fn verif_group_rates(&self) -> Vec<(Vec<(String, String)>, f32, f32, u32)> {
+        self.groups
+            .iter()
+            .map(|(group, state)| {
+                (
+                    group
+                        .iter()
+                        .map(|(k, v)| (k.to_string(), v.to_string()))
+                        .collect(),
+                    state.sample_rate,
+                    state.average_observed.current(),
+                    state.current_observed,
+                )
+            })
+            .collect()
+    }
+
+    /// Observations counted in the current interval.
+    pub fn verif_current_observed(&self) -> u32 {
+        self.current_observed
+    }
+}
+
 #[derive(Clone, Copy, Default)]
 struct GroupState {
     current_observed: u32,
